@@ -154,6 +154,28 @@ def dump(state, tokens):
             if state.routers.get(k) is not v:
                 wrong.append([HEX2ID.get(k, k), form[41:42] or 'bare', 'the lookup replaced the listed relay'])
                 state.routers[k] = v
+    # a relay the document does not list (Tor names one in a circuit path, say) gets a stand-in under its fingerprint; asking for it —
+    # in any LongName form — leaves every nickname of the document meaning what it meant, and adds none
+    before = dict(state.routers)
+    listed = {k for k in before if k.startswith('$')}
+    for i in range(1, 14):
+        fp = idhex(i)
+        if fp in listed:
+            continue
+        nick = NICKS[(i + len(listed)) % len(NICKS)]
+        for form in (fp + '=' + nick, fp + '~' + nick, fp):
+            try:
+                state.router_from_id(form)
+            except Exception as e:
+                wrong.append([HEX2ID.get(fp, fp), form[41:42] or 'bare', type(e).__name__])
+        break
+    for k in set(before) | set(state.routers):
+        if k.startswith('$'):
+            continue
+        if state.routers.get(k) is not before.get(k):
+            wrong.append([k, 'nickname', 'means another relay after a lookup of an unlisted relay' if k in before else 'resolves although no listed relay has it'])
+    state.routers.clear()
+    state.routers.update(before)
     if wrong:
         return {'relays': {str(k): v for k, v in sorted(relays.items())}, 'names': names, 'byname': byname, 'byhash': byhash, 'all': allr,
                 'guards': guards, 'auth': auth, 'longname_lookup_wrong': sorted(wrong)}, ident
